@@ -9,6 +9,8 @@ import Driver.Ops.Zc
 import Driver.Ops.Align
 import Driver.Ops.Z64
 import Driver.Ops.Layers
+import Driver.Ops.Aes
+import Driver.Ops.Fault
 /- Dispatch table: op-name prefix → handler (model evaluation → canonical response line).
    One file per stream under `Driver/Ops/`; register it here. -/
 
@@ -21,10 +23,12 @@ def handlers : List (String × (String → Args → Option String)) :=
     ("clones.", opClones),
     ("paths.", opPaths),
     ("z64.", opZ64),
+    ("fault.", opFault),
     ("text.", opText),
     ("zc.", opZc),
     ("align.", opAlign),
-    ("layers.", opLayers) ]
+    ("layers.", opLayers),
+    ("aes.", opAes) ]
 
 def dispatch (op : String) (a : Args) : String :=
   match handlers.find? (fun h => op.startsWith h.1) with
